@@ -166,6 +166,10 @@ def check_pair(prop, sh, a, b, x, sub, o):
 
 def check_hist(prop, sh, states, f0, o):
     f = []
+    if prop == 'C06':
+        vals = {t: o.get(t) for t in ('HA', 'HAR', 'HAM', 'HAS')}
+        if 'HA' in o and len(set(vals.values())) != 1: f.append(f"on the concatenation of the {o.get('HN', '?')} entries of {len(states) - 1} successive diffs apply / apply_ref / apply_mut / apply_single disagree: {vals}")
+        return f
     if prop not in ('C02',): return f
     c0 = G.canon_val(sh, f0)
     for k in range(1, len(states)):
